@@ -1,3 +1,4 @@
+pub mod c06;
 pub mod c07;
 pub mod c08;
 pub mod c09;
@@ -6,6 +7,7 @@ pub mod c11;
 pub mod c12;
 pub mod c13;
 pub mod c15;
+pub mod c18;
 pub mod explore;
 pub mod trees;
 pub mod lattice;
@@ -74,6 +76,15 @@ pub fn run_property(id: &str, opts: &Opts) -> i32 {
             ],
             Value::Null,
         ),
+        "C06" => (
+            vec![run_part::<c06::C06>(opts)],
+            &[
+                "wall-clock oracle: a deadline honoured late by less than the 1 s allowance is invisible; an overshoot counts only if it repeats in three more runs of the same case",
+                "'never blocks indefinitely' is decided as 'returned within a 20 s watchdog' on cases whose time limit is <= 100 ms",
+                "infeasibility is by construction (closed shell of thickness >= 1.05 L in the reference metric, or goal region covered by an obstacle)",
+            ],
+            Value::Null,
+        ),
         "C07" => (
             vec![run_part::<c07::C07>(opts), run_part::<c07::C07Prefix>(opts)],
             A_PLAN,
@@ -96,6 +107,11 @@ pub fn run_property(id: &str, opts: &Opts) -> i32 {
         ),
         "C17" => (
             vec![run_part::<c15::C17Explore>(opts), run_part::<c15::C17Random>(opts), run_part::<c15::C17VsRrt>(opts)],
+            A_PLAN,
+            Value::Null,
+        ),
+        "C18" => (
+            vec![run_part::<c18::C18Scripted>(opts), run_part::<c18::C18Random>(opts)],
             A_PLAN,
             Value::Null,
         ),
@@ -129,6 +145,7 @@ pub fn replay(opts: &Opts, doc: &Value) -> i32 {
     try_part!(paths::C03);
     try_part!(paths::C04);
     try_part!(paths::C05);
+    try_part!(c06::C06);
     try_part!(c07::C07);
     try_part!(c07::C07Prefix);
     try_part!(c08::C08);
@@ -138,6 +155,8 @@ pub fn replay(opts: &Opts, doc: &Value) -> i32 {
     try_part!(c11::C11);
     try_part!(c12::C12);
     try_part!(c13::C13);
+    try_part!(c18::C18Scripted);
+    try_part!(c18::C18Random);
     try_part!(c15::C15Explore);
     try_part!(c15::C15Random);
     try_part!(c15::C15Chunked);
